@@ -24,6 +24,8 @@ for p in patches:
             fp, h, info = extract.ensure_facts(scratch)
         except extract.ExtractError as e:
             print(os.path.basename(p), "DOES NOT COMPILE", str(e)[-300:]); bad += 1; continue
+        from tc.util import reset_caches
+        reset_caches()
         F = Facts(fp)
         fired = []
         for pid, spec in sorted(props.PROPS.items()):
